@@ -28,7 +28,7 @@ Qed.
 
 Lemma leaf_logs_all : forall sh log, leaf_logs sh log = repeat log (nleaves sh).
 Proof.
-  intros sh log. unfold leaf_logs.
+  intros sh log. unfold leaf_logs. destruct sh as [|a b]; [reflexivity|]. set (sh := Pair a b).
   assert (G : forall n k, (k + n <= nleaves sh)%nat ->
              map (fun i => leaf_log i (fan_trace sh log)) (seq k n) = repeat log n).
   { induction n as [|n IHn]; intros k Hk; [reflexivity|]. cbn [seq map repeat].
